@@ -191,27 +191,57 @@ TIL_POOL = [
 ]
 T_SLOTS = ["d1.dur", "d1.cond1", "d1.cond2", "d1.eff1", "d1.eff2", "til", "goal", "init"]
 
+# intermediate timings / timed goals: expressible in ANML only (appended AFTER the PDDL pools so
+# that the PDDL indices stay stable)
+S1, E1 = ("start", 1), ("end", -1)
+SH = ("start", (1, 2))
+ANML_TCOND = [
+    (((S1, S1, False, False), p(X)), 1),
+    (((S1, END, False, False), NOT(b)), 1),
+    (((START, E1, False, True), p(X)), 1),
+    (((SH, E1, True, False), ("lt", n, I(3))), 0),
+    (((E1, E1, False, False), b), 0),
+]
+ANML_TEFF = [
+    ((S1, eff("assign", b, TRUE)), 1),
+    ((E1, eff("assign", p(X), FALSE)), 1),
+    ((SH, eff("inc", n, I(1))), 1),
+    ((E1, eff("assign", b, TRUE, p(X))), 0),
+    ((S1, eff("assign", p(uprob.vT), FALSE, None, uprob.VT)), 0),
+]
+G1, G2, GE = ("gstart", 1), ("gstart", 2), ("gend", 0)
+TGOAL_POOL = [
+    ((((G1, G2, False, False), b),), 1),
+    ((((G1, G2, True, False), p(o1)),), 1),
+    ((((G2, G2, False, False), NOT(b)),), 1),
+    ((((G1, GE, False, False), p(o2)),), 0),
+    ((((("gstart", 0), GE, False, False), ("or", NOT(b), p(o1))),), 1),
+]
+ANML_T_SLOTS = T_SLOTS + ["tgoal"]
 
-def t_pool(slot):
+
+def t_pool(slot, anml=False):
     if slot == "d1.dur":
         return DUR_POOL[1:]
     if slot.startswith("d1.cond"):
-        return TCOND_POOL
+        return TCOND_POOL + (ANML_TCOND if anml else [])
     if slot.startswith("d1.eff"):
-        return TEFF_POOL
+        return TEFF_POOL + (ANML_TEFF if anml else [])
     if slot == "til":
         return TIL_POOL
+    if slot == "tgoal":
+        return TGOAL_POOL
     return uprob.pool(slot)
 
 
-def t_make(choices, keep_bounds=False):
+def t_make(choices, keep_bounds=False, keep_r=False):
     """Temporal instance: U-PROB base (PDDL projection) + durative action d1(x:T) with
     default `duration 2; at end p(x):=T` + d2() `duration 1; at start b:=T`."""
-    base = {s: i for s, i in choices.items() if s in ("goal", "init")}
-    ps = make(base, keep_bounds=keep_bounds)
+    base = {s: i for s, i in choices.items() if s in uprob.SLOT_NAMES}
+    ps = make(base, keep_bounds=keep_bounds, keep_r=keep_r)
     if ps is None:
         return None
-    ch = {s: t_pool(s)[i][0] for s, i in choices.items() if s not in ("goal", "init")}
+    ch = {s: t_pool(s, anml=True)[i][0] for s, i in choices.items() if s not in uprob.SLOT_NAMES}
     d1 = {
         "name": "d1",
         "params": (("x", T),),
@@ -229,14 +259,16 @@ def t_make(choices, keep_bounds=False):
     ps["dactions"] = (d1, d2)
     if "til" in ch:
         ps["teffs"] = tuple(ch["til"])
+    if "tgoal" in ch:
+        ps["tgoals"] = tuple(ch["tgoal"])
     return ps
 
 
-def t_instances(level, core_only=False, **kw):
-    for combo in combinations(T_SLOTS, level):
+def t_instances(level, core_only=False, anml=False, **kw):
+    for combo in combinations(ANML_T_SLOTS if anml else T_SLOTS, level):
         idxs = []
         for sname in combo:
-            pl = t_pool(sname)
+            pl = t_pool(sname, anml)
             idxs.append([i for i, (_x, core) in enumerate(pl) if core or not core_only])
         for pick in product(*idxs):
             cid = tuple(zip(combo, pick))
